@@ -171,10 +171,28 @@ def coq_make(targets, timeout=3000):
         return rc == 0, out, ' '.join(cmd), time.time() - t0
 
 
+GENROOT = os.path.join(CACHE, 'gen')
+
+
+def gen_phys(relpath):
+    """Physical location of a generated file.  The per-run directories gen/r<pid> keep their
+    logical name Verif.gen.r<pid> but live OUTSIDE coq/ (under .cache/gen): coqc, coqdep and make
+    scan every directory below coq/ when they start, and a directory that another run creates or
+    deletes at that moment made them fail (a false alarm under concurrent checks)."""
+    parts = relpath.split(os.sep)
+    assert parts[0] == 'gen' and len(parts) >= 2, relpath
+    return os.path.join(GENROOT, *parts[1:])
+
+
 def coqc_file(relpath, timeout=900):
     """Compile one file under coq/ (used for Props.v and generated files);
     returns (ok, output)."""
-    cmd = ['coqc', '-R', '.', 'Verif', '-w', '-all', relpath]
+    if relpath.startswith('gen' + os.sep):
+        run = relpath.split(os.sep)[1]
+        cmd = ['coqc', '-R', '.', 'Verif', '-R', os.path.join(GENROOT, run), 'Verif.gen.' + run,
+               '-w', '-all', gen_phys(relpath)]
+    else:
+        cmd = ['coqc', '-R', '.', 'Verif', '-w', '-all', relpath]
     rc, out = sh(cmd, cwd=COQ, timeout=timeout)
     return rc == 0, out
 
@@ -366,7 +384,7 @@ class Ctx:
         # generated Coq files of this run live in their own directory (concurrent runs of the
         # same property must not overwrite each other's case files)
         self.genrel = os.path.join('gen', 'r%d' % os.getpid())
-        os.makedirs(os.path.join(COQ, self.genrel), exist_ok=True)
+        os.makedirs(gen_phys(self.genrel), exist_ok=True)
         os.makedirs(REPLAY, exist_ok=True)
 
     # -- stage 1 ------------------------------------------------------------
@@ -457,7 +475,7 @@ class Ctx:
         """Compile a generated file (translator output + the obligations about
         it).  Returns (ok, output)."""
         rel = os.path.join(self.genrel, name + '.v')
-        with open(os.path.join(COQ, rel), 'w') as f:
+        with open(gen_phys(rel), 'w') as f:
             f.write(vtext)
         ok, out = coqc_file(rel, timeout=timeout)
         self.checker_cmds.append('cd coq && coqc -R . Verif gen/<run>/%s.v' % name)
@@ -470,7 +488,7 @@ class Ctx:
     def coq_eval(self, name, vtext, timeout=900):
         """Compile a generated case file; returns (ok, stdout)."""
         rel = os.path.join(self.genrel, name + '.v')
-        with open(os.path.join(COQ, rel), 'w') as f:
+        with open(gen_phys(rel), 'w') as f:
             f.write(vtext)
         return coqc_file(rel, timeout=timeout)
 
@@ -538,7 +556,7 @@ class Ctx:
             json.dump(ev, f, indent=1, default=str)
         self.impl.cleanup()
         if not self.violations and not self.broken and os.environ.get('VERIF_KEEP_GEN') != '1':
-            shutil.rmtree(os.path.join(COQ, self.genrel), ignore_errors=True)   # kept for inspection otherwise
+            shutil.rmtree(gen_phys(self.genrel), ignore_errors=True)   # kept for inspection otherwise
         log('[%s] tier=%s obligations=%d discharged=%d evaluations=%d distinct=%d violations=%d wall=%.1fs' % (
             self.prop, self.tier, self.obligations, self.discharged, cov['evaluations'],
             cov['distinct_nontrivial'], len(self.violations), time.time() - self.t0))
